@@ -518,9 +518,19 @@ pub fn run(ctx: &Ctx) {
     // ---- (c) node level (router mode, overlapping claims, dropped-payload counter)
     crate::props::node_level::c11_node(ctx);
     let _ = pick_idx(0, 1);
+
+    // coverage-guided search over the same histories (libFuzzer target hist_c11: bytes -> operations -> this oracle);
+    // the committed corpus is replayed in-process in every tier, the campaign runs in the thorough tier
+    crate::targets::replay_corpus(ctx, "hist_c11");
+    if std::env::var("VCHECK_FUZZ").is_ok() && !ctx.quick() {
+        crate::fuzzdrv::run_campaign_par(ctx, "hist_c11", 4800000, 16, 256);
+    }
 }
 
 pub fn replay(ctx: &Ctx, case: &Value) {
+    if crate::fuzzdrv::replay(ctx, case) {
+        return;
+    }
     match case["kind"].as_str() {
         Some("match") => {
             ctx.eval();
